@@ -1,0 +1,225 @@
+# ------------------------------------------------------------------------------
+# pycparser: _verif.py
+#
+# Verification hooks.  Inert unless the environment variable PYCPARSER_VERIF is
+# "1" at import time (see the guarded block at the bottom of __init__.py), and
+# even then every hook is a single `SINK is None` test until a harness installs
+# a sink with set_sink().
+#
+# Each hook emits one event (a dict) at the linearisation point of the method
+# it observes: after the state change, on the error path too.  Events carry an
+# instance id and a global sequence number taken under a lock, never wall-clock
+# time.
+# ------------------------------------------------------------------------------
+import functools
+import threading
+
+SINK = None
+_LOCK = threading.Lock()
+_SEQ = 0
+INSTALLED = False
+
+
+def set_sink(fn):
+    """Install (or with None, remove) the event sink: a callable taking a dict."""
+    global SINK
+    SINK = fn
+
+
+def emit(e, **kw):
+    global _SEQ
+    sink = SINK
+    if sink is None:
+        return
+    kw["e"] = e
+    with _LOCK:
+        _SEQ += 1
+        kw["seq"] = _SEQ
+        sink(kw)
+
+
+def _tok(t):
+    return None if t is None else [t.type, t.value, t.lineno, t.column]
+
+
+def _lexstate(lx):
+    return dict(
+        pos=lx._pos,
+        line=lx._lineno,
+        lstart=lx._line_start,
+        file=lx._filename,
+        pend=_tok(lx._pending_tok),
+    )
+
+
+def _shape(n):
+    """Class-name shape of a declarator chain / small tree, for splice events."""
+    out = []
+    seen = 0
+    while n is not None and seen < 64:
+        out.append(type(n).__name__)
+        n = getattr(n, "type", None)
+        if not hasattr(n, "__slots__"):
+            break
+        seen += 1
+    return out
+
+
+def install():
+    global INSTALLED
+    if INSTALLED:
+        return
+    INSTALLED = True
+    from . import c_lexer, c_parser, c_ast, c_generator, ast_transforms
+
+    def wrap(owner, name, after, before=None):
+        orig = getattr(owner, name)
+
+        @functools.wraps(orig)
+        def w(*a, **k):
+            if SINK is None:
+                return orig(*a, **k)
+            ctx = before(*a, **k) if before is not None else None
+            try:
+                r = orig(*a, **k)
+            except BaseException as ex:
+                after(ctx, None, ex, *a, **k)
+                raise
+            after(ctx, r, None, *a, **k)
+            return r
+
+        setattr(owner, name, w)
+        return w
+
+    # ---- lexer
+    L = c_lexer.CLexer
+    wrap(L, "input", lambda c, r, x, s, text, filename="": emit(
+        "lex.input", i=id(s), n=len(text), file=filename, **{"st": _lexstate(s)}))
+    wrap(L, "token", lambda c, r, x, s: emit(
+        "lex.token", i=id(s), tok=_tok(r), exc=type(x).__name__ if x else None,
+        st=_lexstate(s)))
+    wrap(L, "_error", lambda c, r, x, s, msg, pos: emit(
+        "lex.error", i=id(s), msg=msg, at=pos, raised=x is not None))
+
+    # ---- parser: session, scopes, token stream
+    P = c_parser.CParser
+
+    def parse_before(s, text, filename="", debug=False):
+        emit("parse.call", i=id(s), lex=id(s.clex), n=len(text), file=filename)
+        return None
+
+    def parse_after(c, r, x, s, text, filename="", debug=False):
+        emit(
+            "parse.end", i=id(s), ok=x is None,
+            exc=type(x).__name__ if x is not None else None,
+            msg=str(x) if x is not None else None,
+            depth=len(s._scope_stack), bl=len(s._tokens._buffer), ix=s._tokens._index,
+        )
+
+    wrap(P, "parse", parse_after, parse_before)
+    wrap(P, "_push_scope", lambda c, r, x, s: emit(
+        "scope.push", i=id(s), d=len(s._scope_stack)))
+    wrap(P, "_pop_scope", lambda c, r, x, s: emit(
+        "scope.pop", i=id(s), d=len(s._scope_stack), raised=x is not None))
+    wrap(P, "_add_typedef_name", lambda c, r, x, s, name, coord: emit(
+        "scope.reg", i=id(s), name=name, t=True, d=len(s._scope_stack),
+        bl=len(s._tokens._buffer), ix=s._tokens._index, raised=x is not None))
+    wrap(P, "_add_identifier", lambda c, r, x, s, name, coord: emit(
+        "scope.reg", i=id(s), name=name, t=False, d=len(s._scope_stack),
+        bl=len(s._tokens._buffer), ix=s._tokens._index, raised=x is not None))
+    wrap(P, "_lex_type_lookup_func", lambda c, r, x, s, name: emit(
+        "scope.look", i=id(s), name=name, ans=r))
+
+    T = c_parser._TokenStream
+    orig_ts_init = T.__init__
+
+    @functools.wraps(orig_ts_init)
+    def ts_init(self, lexer):
+        orig_ts_init(self, lexer)
+        if SINK is not None:
+            emit("ts.new", i=id(self), lex=id(lexer), st=_lexstate(lexer))
+
+    T.__init__ = ts_init
+    wrap(T, "next", lambda c, r, x, s: emit(
+        "ts.next", i=id(s), lex=id(s._lexer), ix=c, tok=_tok(r)),
+        before=lambda s: s._index)
+    wrap(T, "reset", lambda c, r, x, s, mark: emit(
+        "ts.reset", i=id(s), lex=id(s._lexer), frm=c, to=mark),
+        before=lambda s, mark: s._index)
+    wrap(T, "mark", lambda c, r, x, s: emit("ts.mark", i=id(s), lex=id(s._lexer), ix=r))
+
+    # ---- tree rewrites and the declarator splice
+    def splice_before(s, decl, modifier):
+        return (_shape(decl), _shape(modifier))
+
+    wrap(P, "_type_modify_decl", lambda c, r, x, s, decl, modifier: emit(
+        "splice", i=id(s), decl=c[0], mod=c[1], out=_shape(r)), splice_before)
+
+    def sw_before(node):
+        st = node.stmt
+        if not isinstance(st, c_ast.Compound):
+            return None
+
+        def kind(ch):
+            k = type(ch).__name__
+            if k in ("Case", "Default"):
+                # length of the chain of directly nested labels
+                n = 1
+                cur = ch
+                while cur.stmts and type(cur.stmts[0]).__name__ in ("Case", "Default"):
+                    cur = cur.stmts[0]
+                    n += 1
+                return [k, n]
+            return ["stmt", 0]
+
+        return [kind(ch) for ch in (st.block_items or [])]
+
+    def sw_after(c, r, x, node):
+        if c is None or r is None:
+            return
+        out = []
+        for ch in r.stmt.block_items or []:
+            k = type(ch).__name__
+            if k in ("Case", "Default"):
+                out.append([k, len(ch.stmts),
+                            sum(1 for q in ch.stmts
+                                if type(q).__name__ in ("Case", "Default"))])
+            else:
+                out.append(["stmt", 0, 0])
+        emit("switchfix", inp=c, out=out)
+
+    w = wrap(ast_transforms, "fix_switch_cases", sw_after, sw_before)
+    c_parser.fix_switch_cases = w
+
+    # ---- generator indentation
+    G = c_generator.CGenerator
+
+    def gen_before(s, node):
+        d = getattr(s, "_verif_depth", 0)
+        s._verif_depth = d + 1
+        if d == 0:
+            emit("gen.enter", i=id(s), k=type(node).__name__, ind=s.indent_level)
+        return d
+
+    def gen_after(c, r, x, s, node):
+        s._verif_depth = c
+        if c == 0:
+            emit("gen.leave", i=id(s), k=type(node).__name__, ind=s.indent_level,
+                 raised=x is not None)
+
+    wrap(G, "visit", gen_after, gen_before)
+    wrap(G, "visit_Compound", lambda c, r, x, s, n: emit(
+        "gen.block", i=id(s), k="Compound", ind0=c, ind1=s.indent_level),
+        before=lambda s, n: s.indent_level)
+    wrap(G, "_generate_struct_union_enum", lambda c, r, x, s, n, name: emit(
+        "gen.block", i=id(s), k=name, ind0=c, ind1=s.indent_level),
+        before=lambda s, n, name: s.indent_level)
+    wrap(G, "_generate_stmt", lambda c, r, x, s, n, add_indent=False: emit(
+        "gen.block", i=id(s), k="stmt", ind0=c, ind1=s.indent_level),
+        before=lambda s, n, add_indent=False: s.indent_level)
+
+    # ---- generic traversal
+    V = c_ast.NodeVisitor
+    wrap(V, "visit", lambda c, r, x, s, node: None,
+         before=lambda s, node: emit(
+             "visit", i=id(s), n=id(node), k=type(node).__name__))
